@@ -458,7 +458,9 @@ void mmd_export_image_latex(DString * out, const char * source, token * text, li
 
 		if ((text && text->len > 3) || (link->title && link->title[0] != '\0')) {
 			if (link->title && link->title[0] != '\0') {
-				printf("\\caption[%s]{", link->title);
+				print_const("\\caption[");
+				mmd_print_string_latex(out, link->title);
+				print_const("]{");
 			} else {
 				print_const("\\caption{");
 			}
@@ -1528,9 +1530,13 @@ parse_citation:
 						}
 
 						if (temp_bool) {
-							printf("\\citet[%s]", temp_char);
+							print_const("\\citet[");
+							mmd_print_string_latex(out, temp_char);
+							print_const("]");
 						} else {
-							printf("~\\citep[%s]", temp_char);
+							print_const("~\\citep[");
+							mmd_print_string_latex(out, temp_char);
+							print_const("]");
 						}
 					}
 
